@@ -194,3 +194,20 @@ class LoopModel:
         async def job():
             return fn(*args)
         return TaskModel(job(), self)
+
+
+def _unit_float():                  # engine primitive: an unknown float in [0, 1)
+    raise RuntimeError("engine primitive")
+
+
+class RandomModel:
+    """random.Random: only random() (an unknown float in [0, 1)) and seeding are modelled"""
+
+    def __init__(self, x=None):
+        self._seed = x
+
+    def seed(self, a=None, version=2):
+        self._seed = a
+
+    def random(self):
+        return _unit_float()
